@@ -501,3 +501,11 @@ B("C01", BASE, '        if solver == "bwd_euler":', '        if solver != "bwd_e
 B("C08", BASE, '        if "v" in externals.keys():\n            u["v"] = u["v"].at', '        if "v" not in externals.keys():\n            u["v"] = u["v"].at', "R-C08-inputs")
 B("C08", BASE, '            if key not in ["i", "v"]:', '            if key in ["i", "v"]:', "R-C08-inputs")
 P("C08", BASE, '            if key not in ["i", "v"]:', '            if key != "i" and key != "v":')
+
+# F25 (repaired): loc() must not rebind its argument inside the loop over the branches
+B("C11", BASE, "            locs = (\n                comp_locs if is_str_all(at) else self._reformat_index(at, dtype=float)\n            )", "            at = (\n                comp_locs if is_str_all(at) else self._reformat_index(at, dtype=float)\n            )\n            locs = at", "R-C11-loc")
+# a per-iteration temporary read by a later loop; overrides applied in order
+B("C02", NW, "            offset_within_cell = cell.cumsum_ncomp[-1]\n            condition = cell._comp_edges[\"type\"].isin([3, 4])", "            condition = cell._comp_edges[\"type\"].isin([3, 4])", "R-C02-loopleak")
+for _p, _r in (("C10", "R-C10-order"), ("C05", "R-C05-order")):
+    B(_p, BASE, "                param_state += added_param_state", "                param_state = added_param_state + param_state", _r)
+P("C10", BASE, "                param_state += added_param_state", "                param_state = param_state + added_param_state")
